@@ -5,6 +5,7 @@ import (
 	"errors"
 	"fmt"
 	"io"
+	"math"
 
 	"github.com/Tnze/go-mc/nbt"
 )
@@ -61,7 +62,7 @@ func (v *Value) unmarshal(tagType byte, r nbt.DecoderReader, depth int) error {
 			return errors.New("byte array len less than 0")
 		}
 
-		if err = v.readCounted(r, uint32(n), int(n)); err != nil {
+		if err = v.readCounted(r, uint32(n), int64(n)); err != nil {
 			return err
 		}
 
@@ -140,7 +141,7 @@ func (v *Value) unmarshal(tagType byte, r nbt.DecoderReader, depth int) error {
 			return errors.New("int array len less than 0")
 		}
 
-		if err = v.readCounted(r, uint32(n), int(n)*4); err != nil {
+		if err = v.readCounted(r, uint32(n), int64(n)*4); err != nil {
 			return err
 		}
 
@@ -153,7 +154,7 @@ func (v *Value) unmarshal(tagType byte, r nbt.DecoderReader, depth int) error {
 			return errors.New("long array len less than 0")
 		}
 
-		if err = v.readCounted(r, uint32(n), int(n)*8); err != nil {
+		if err = v.readCounted(r, uint32(n), int64(n)*8); err != nil {
 			return err
 		}
 	}
@@ -206,18 +207,21 @@ func readString(r nbt.DecoderReader) (string, error) {
 
 // readCounted fills v.data with the 4-byte element count followed by size payload bytes. The count comes
 // from the input, so the buffer grows as the payload actually arrives instead of being allocated up front.
-func (v *Value) readCounted(r io.Reader, count uint32, size int) error {
+func (v *Value) readCounted(r io.Reader, count uint32, size int64) error {
 	const chunk = 64 << 10
+	if size > math.MaxInt-4 {
+		return errors.New("array too large for this platform") // int has 32 bits here
+	}
 	v.data = append(v.data[:0], 0, 0, 0, 0)
 	binary.BigEndian.PutUint32(v.data, count)
 	for size > 0 {
-		c := min(size, max(chunk, len(v.data)))
+		c := int(min(size, int64(max(chunk, len(v.data)))))
 		start := len(v.data)
 		v.data = append(v.data, make([]byte, c)...)
 		if _, err := io.ReadFull(r, v.data[start:]); err != nil {
 			return err
 		}
-		size -= c
+		size -= int64(c)
 	}
 	return nil
 }
